@@ -45,6 +45,7 @@ FAMS = [
     dict(GN=3, GD=4, PD=2, rewards=(-2, -1, 0, 1, 2)),
     dict(GN=1, GD=1, PD=2, rewards=(-2, -1, 0)),
     dict(GN=9, GD=10, PD=2, rewards=(-2, -1, 0, 1, 2)),
+    dict(GN=0, GD=1, PD=2, rewards=(-2, -1, 0, 1, 2)),      # discount_rate = 0 (falsy): a discounted MDP like any other
 ]
 
 REPS = [
@@ -60,8 +61,8 @@ REPS = [
     dict(rep="sparse", labels="int", alabels="str", explicit_list=False, dist="sparse"),
     dict(rep="sparse", labels="mixed", alabels="tuple", explicit_list=False, dist="sparse"),
 ]
-TIERS = {"quick": dict(n_inst=140, per_inst=6, n_mc=20, mc_cap=120, n_light=24),
-         "thorough": dict(n_inst=1200, per_inst=8, n_mc=160, mc_cap=400, n_light=40)}
+TIERS = {"quick": dict(n_inst=140, per_inst=6, n_mc=20, mc_cap=120, n_light=24, n_special=16, n_light_special=12),
+         "thorough": dict(n_inst=1200, per_inst=8, n_mc=160, mc_cap=400, n_light=40, n_special=120, n_light_special=24)}
 FLAGS = [(0, 0), (1, 1), (0, 1), (1, 0)]
 HKINDS = ["const", "exact", "slack", "vslack"]
 INST_KEYS = ("N", "K", "PD", "GN", "GD", "ID", "abs", "avail", "P", "R", "p0")
@@ -238,7 +239,32 @@ def sparse_zeros(rng, m):
     return zl, z0
 
 
-def build_sparse(m, rc):
+BIG = 4000000          # potential scale of the large-magnitude family (a multiple of every GD in use)
+EPS_DEN = 10 ** 9      # a rare transition has probability 1 / EPS_DEN
+
+
+def discount_of(m, rc):
+    """The discount handed to msdm; discount 0 is passed as the int 0 or the float 0.0 (both falsy)."""
+    if m["GN"] == 0:
+        return 0 if rc["lseed"] % 2 else 0.0
+    return m["GN"] / m["GD"]
+
+
+def offsets(m, rc):
+    """B*lev[s] per state for the large-magnitude family (real value = model value - offset), else zeros."""
+    fx = rc.get("fx") or {}
+    if "lev" in fx:
+        return [fx["B"] * x for x in fx["lev"]]
+    return [0] * m["N"]
+
+
+def build_custom(m, rc):
+    """A plain (non-tabular) QuickMDP built by this driver.  rc["zl"] / rc["z0"]: zero-probability entries listed by
+    the distributions.  rc["fx"] (special families):
+      lev, B   potential-based shaping: reward R(s,a,t) - B*lev[s] + gamma*B*lev[t]  (every value of s shifts by -B*lev[s])
+      rare     [s, a, x, rho]: (s, a) moves to x with probability 1/EPS_DEN and reward rho*EPS_DEN there; the other
+               successors keep their relative weights and pay R - rho (the record m carries R, which includes the
+               expected contribution rho of the rare transition: the epsilon -> 0 limit)."""
     from msdm.core.distributions import DictDistribution
     from msdm.core.mdp import QuickMDP
     N, K = m["N"], m["K"]
@@ -247,16 +273,50 @@ def build_sparse(m, rc):
     al = build.make_labels(rc["rep"]["alabels"], K, "a", lr)
     si = {lab: i for i, lab in enumerate(sl)}
     ai = {lab: i for i, lab in enumerate(al)}
-    zl, z0 = rc["zl"], rc["z0"]
+    zl, z0 = (rc["zl"], rc["z0"]) if "zl" in rc else no_zeros(m)
+    fx = rc.get("fx") or {}
+    off = offsets(m, rc)
+    rare = fx.get("rare")
+    g = F(m["GN"], m["GD"])
+
+    def nsd(s, a):
+        i, j = si[s], ai[a]
+        d = {sl[t]: m["P"][i][j][t] / m["PD"] for t in range(N) if m["P"][i][j][t] > 0 or zl[i][j][t]}
+        if rare and (i, j) == (rare[0], rare[1]):
+            d = {k: v * (1 - 1 / EPS_DEN) for k, v in d.items()}
+            d[sl[rare[2]]] = 1 / EPS_DEN
+        return DictDistribution(d)
+
+    def reward(s, a, ns):
+        i, j, t = si[s], ai[a], si[ns]
+        r = F(m["R"][i][j][t])
+        if rare and (i, j) == (rare[0], rare[1]):
+            r = F(rare[3] * EPS_DEN) if t == rare[2] else r - rare[3]
+        r = r - off[i] + g * off[t]
+        return float(r)
+
     mdp = QuickMDP(
-        next_state_dist=lambda s, a: DictDistribution({sl[t]: m["P"][si[s]][ai[a]][t] / m["PD"] for t in range(N)
-                                                       if m["P"][si[s]][ai[a]][t] > 0 or zl[si[s]][ai[a]][t]}),
-        reward=lambda s, a, ns: float(m["R"][si[s]][ai[a]][si[ns]]),
+        next_state_dist=nsd, reward=reward,
         actions=lambda s: [al[a] for a in range(K) if m["avail"][si[s]][a]],
         initial_state_dist=lambda: DictDistribution({sl[t]: m["p0"][t] / m["ID"] for t in range(N) if m["p0"][t] > 0 or z0[t]}),
         is_absorbing=lambda s: bool(m["abs"][si[s]]),
-        discount_rate=m["GN"] / m["GD"])
+        discount_rate=discount_of(m, rc))
     return build.Built(mdp=mdp, m=m, slabel=sl, alabel=al, rep="sparse", explicit_list=False)
+
+
+def build_for(m, rc):
+    if rc["rep"]["rep"] == "sparse":
+        return build_custom(m, rc)
+    return build.build_mdp(m, rng=random.Random(rc["lseed"]), discount=discount_of(m, rc), **rc["rep"])
+
+
+def pos_succ(m, rc, s, a):
+    """Successors of positive probability in the MDP msdm sees."""
+    out = [t for t in range(m["N"]) if m["P"][s][a][t] > 0]
+    rare = (rc.get("fx") or {}).get("rare")
+    if rare and (s, a) == (rare[0], rare[1]):
+        out.append(rare[2])
+    return out
 
 
 def listed_zeros(m, rc):
@@ -294,21 +354,92 @@ def heuristic_table(rng, kind, vstar):
     return [[h.numerator, h.denominator] for h in hs]
 
 
-def make_runs(rng, m, vstar, per_instance):
+def make_runs(rng, m, vstar, per_instance, fx=None, pair=None):
+    """fx: special-family data (see build_custom) - those runs use the driver's own builder; pair: (other instance,
+    its V*) - the runs share one LAOStar object with `other` (heuristics admissible for both)."""
     runs = []
     seeds = [0, 1, 7, 2 ** 31 - 1, rng.randrange(10 ** 6), rng.randrange(10 ** 9)]
-    kinds = HKINDS[:]
+    kinds = [k for k in HKINDS if not (fx and "lev" in fx and k == "const")]    # a constant cannot bound shifted values
     rng.shuffle(kinds)
+    reps = [r for r in REPS if r["rep"] == "sparse"] if fx else [r for r in REPS if r["rep"] != "sparse"] if pair else REPS
+    hv = [max(a, b) for a, b in zip(vstar, pair[1])] if pair else vstar
     for k in range(per_instance):
         rao, rno = FLAGS[k % 4]
-        hk = kinds[k % 4]
-        rep = dict(REPS[rng.randrange(len(REPS))])
-        rc = {"hk": hk, "H": heuristic_table(rng, hk, vstar), "rao": rao, "rno": rno,
+        hk = kinds[k % len(kinds)]
+        rep = dict(reps[rng.randrange(len(reps))])
+        rc = {"hk": hk, "H": heuristic_table(rng, hk, hv), "rao": rao, "rno": rno,
               "seed": seeds[(k + rng.randrange(6)) % 6], "rep": rep, "lseed": rng.randrange(10 ** 6)}
         if rep["rep"] == "sparse":
-            rc["zl"], rc["z0"] = sparse_zeros(rng, m)
+            rc["zl"], rc["z0"] = no_zeros(m) if (fx and "rare" in fx) else sparse_zeros(rng, m)
+        if fx:
+            rc["fx"] = fx
+        if pair:
+            rc["pair"] = {"role": "first" if k % 3 else "second", "other": pair[0]}
         runs.append({"m": m, "rc": rc})
     return runs
+
+
+def shaped_fx(rng, m):
+    """Large-magnitude family: potentials B*lev[s], lev >= 1 at every non-absorbing state."""
+    return {"lev": [0 if m["abs"][s] else rng.choice([1, 1, 2, 3]) for s in range(m["N"])], "B": BIG}
+
+
+def first_improvement_not_optimal(m):
+    """Policy iteration started from the uniform policy (as msdm's value revision does) needs more than one
+    improvement step on this instance: the greedy policy for the uniform policy's values is not yet optimal."""
+    N, K = m["N"], m["K"]
+    w = {s: {a: (F(1, sum(m["avail"][s])) if m["avail"][s][a] else F(0)) for a in range(K)}
+         for s in range(N) if not m["abs"][s]}
+    try:
+        v = pyoracle.policy_value(m, w)
+    except ZeroDivisionError:
+        return False
+    if any(x == pyoracle.NEG for x in v):
+        return False
+    w1 = {}
+    for s in w:
+        qs = {a: pyoracle.q_from_v(m, v, s, a) for a in gen.avail(m, s)}
+        best = max(qs, key=lambda a: (qs[a], -a))
+        w1[s] = {a: F(1 if a == best else 0) for a in range(K)}
+    v1, vs = pyoracle.policy_value(m, w1), pyoracle.optimal_value(m)
+    return any(v1[s] != vs[s] for s in range(N))
+
+
+def rare_instance(rng, m):
+    """Rare-transition family: (limit-model instance, fx) or None.  One available action of a reachable
+    non-absorbing state gets a 1e-9 transition to a state x outside its support, worth rho in expectation."""
+    if not 0 < m["GN"] < m["GD"]:
+        return None
+    reach = gen.reach(m)
+    cands = [(s, a, x) for s in sorted(reach) if not m["abs"][s] for a in gen.avail(m, s)
+             for x in range(m["N"]) if m["P"][s][a][x] == 0]
+    if not cands:
+        return None
+    s, a, x = rng.choice(cands)
+    rho = rng.choice([-20, -12, -6, 6, 12, 20])
+    m2 = dict(m)
+    m2["R"] = [[list(row) for row in act] for act in m["R"]]
+    m2["R"][s][a] = [r + rho for r in m2["R"][s][a]]
+    if not gen.magnitude_ok(m2, QD=6):
+        return None
+    return m2, {"rare": [s, a, x, rho]}
+
+
+def partner_instance(rng, m):
+    """An instance with the same states / actions / dynamics but other rewards and (where the rows allow it) other
+    action sets: what a second plan_on of the same planner is given."""
+    pool = sorted({x for s in m["R"] for a in s for x in a} | {-2, -1, 0})
+    m2 = dict(m)
+    m2["R"] = [[[rng.choice(pool) for _ in row] for row in act] for act in m["R"]]
+    av = [list(r) for r in m["avail"]]
+    for s in range(m["N"]):
+        for a in range(m["K"]):
+            if sum(m["P"][s][a]) == m["PD"] and rng.random() < 0.4:
+                av[s][a] = 1 - av[s][a]
+        if not any(av[s]):
+            av[s] = list(m["avail"][s])
+    m2["avail"] = av
+    return m2
 
 
 # --------------------------------------------------------------------------------------------
@@ -338,31 +469,42 @@ def listener_class():
 
 
 def run_real(m, rc):
-    """Run msdm's LAOStar; everything is projected to abstract 0-based indices."""
+    """Run msdm's LAOStar; everything is projected to abstract 0-based indices and model units.
+
+    rc["pair"] = {"role": "first" | "second", "other": instance}: the SAME LAOStar object also plans on `other` (an
+    instance with the same labels, built with the same representation; the heuristic is admissible for both) - after
+    this instance (role first: the result is examined only after the planner was reused) or before it."""
     from msdm.algorithms.laostar import LAOStar
     # building the msdm object is the harness' own business: a failure here is a machinery failure
-    if rc["rep"]["rep"] == "sparse":
-        b = build_sparse(m, rc)
-    else:
-        b = build.build_mdp(m, rng=random.Random(rc["lseed"]), **rc["rep"])
+    b = build_for(m, rc)
+    pair = rc.get("pair")
+    other = build_for(pair["other"], rc) if pair else None
     H = [frac(x) for x in rc["H"]]
+    off = offsets(m, rc)
     if rc["hk"] == "const":
         heuristic = int(H[0]) if H[0].denominator == 1 else float(H[0])     # a plain number
     else:
-        hv = {b.slabel[i]: float(H[i]) for i in range(m["N"])}
+        hv = {b.slabel[i]: float(H[i] - off[i]) for i in range(m["N"])}
         heuristic = (lambda table: lambda s: table[s])(hv)
     try:
         with warnings.catch_warnings():
             warnings.simplefilter("ignore")
-            r = LAOStar(heuristic=heuristic, randomize_action_order=bool(rc["rao"]),
-                        randomize_nextstate_order=bool(rc["rno"]), seed=rc["seed"],
-                        event_listener_class=listener_class()).plan_on(b.mdp)
+            planner = LAOStar(heuristic=heuristic, randomize_action_order=bool(rc["rao"]),
+                              randomize_nextstate_order=bool(rc["rno"]), seed=rc["seed"],
+                              event_listener_class=listener_class())
+            if pair and pair["role"] == "second":
+                planner.plan_on(other.mdp)
+            r = planner.plan_on(b.mdp)
+            if pair and pair["role"] == "first":
+                planner.plan_on(other.mdp)
     except Exception as e:                               # noqa: BLE001 - a clause failure ("reports convergence")
         return {"error": f"{type(e).__name__}: {e}"[:300], "etype": type(e).__name__}
-    out = {"converged": bool(r.converged), "initial_value": float(r.initial_value), "iterations": int(r.iterations)}
+    o0 = sum(F(m["p0"][s], m["ID"]) * off[s] for s in range(m["N"]))
+    out = {"converged": bool(r.converged), "initial_value": float(r.initial_value) + float(o0), "iterations": int(r.iterations),
+           "mag": float(max(off))}
     try:
         eg = r.explicit_graph
-        out["svm"] = {b.sidx(s): float(v) for s, v in r.state_value_map.items()}
+        out["svm"] = {b.sidx(s): float(v) + off[b.sidx(s)] for s, v in r.state_value_map.items()}
         out["init"] = [b.sidx(s) for s in eg.initial_states]
         nodes = {}
         for s, n in eg.states_to_nodes.items():
@@ -370,12 +512,12 @@ def run_real(m, rc):
                 "ao": [b.aidx(a) for a in n.action_order],
                 "ns": {b.aidx(a): [b.sidx(t) for t in lst] for a, lst in n.action_nextstates.items()},
                 "vo": int(n.visitorder), "exp": bool(n.expanded), "opt": b.aidx(n.optimal_action),
-                "par": sorted(b.sidx(p) for p in n.parent_states), "val": float(n.value)}
+                "par": sorted(b.sidx(p) for p in n.parent_states), "val": float(n.value) + off[b.sidx(s)]}
         out["nodes"] = nodes
         out["events"] = [{"expand": [b.sidx(s) for s in e["expand"]],
                           "anc": sorted(b.sidx(s) for s in e["anc"]),
                           "opt": {b.sidx(s): b.aidx(a) for s, a in e["opt"].items()},
-                          "vals": {b.sidx(s): v for s, v in e["vals"].items()}}
+                          "vals": {b.sidx(s): v + off[b.sidx(s)] for s, v in e["vals"].items()}}
                          for e in r.event_listener.events]
     except Exception as e:                               # noqa: BLE001 - the observation interface changed
         out["obs_error"] = f"{type(e).__name__}: {e}"[:300]
@@ -408,8 +550,8 @@ def run_real(m, rc):
         if m["abs"][s]:
             continue
         for a in sup:
-            for t in range(m["N"]):
-                if m["P"][s][a][t] > 0 and t not in seen:
+            for t in pos_succ(m, rc, s, a):
+                if t not in seen:
                     seen.add(t)
                     todo.append(t)
     out["pol"], out["polerr"] = pol, polerr
@@ -429,6 +571,11 @@ def trace_record(m, rc, real, tag, vs):
     rec["vs"] = vs
     rec["zl"], rec["z0"] = listed_zeros(m, rc)
     rec.update(hk=rc["hk"], H=rc["H"], rao=rc["rao"], rno=rc["rno"], tag=tag)
+    fx = rc.get("fx") or {}
+    if "lev" in fx:
+        rec["lev"], rec["B"] = fx["lev"], fx["B"]
+    if "rare" in fx:
+        rec["rare"] = 1
     nodes = real.get("nodes", {})
     log = {"init": [s + 1 for s in real.get("init", [])],
            "ao": [[a + 1 for a in nodes[s]["ao"]] if s in nodes else [] for s in range(N)],
@@ -513,7 +660,32 @@ def rounding_window(m):
     return 1e-10 / (1 - g) if g < 1 else 0.0
 
 
-def compare_steps(real, rec, follow_log):
+def run_tolerance(m, rc, o=None):
+    """Absolute slack of one run on top of 1e-9 relative: (value slack, policy-return slack).
+
+    * rounding window of msdm's policy iteration (see rounding_window);
+    * large-magnitude family: the real numbers are model value - B*lev, compared at 1e-9 relative to THEIR size;
+    * rare-transition family: the record is the eps -> 0 limit of the real MDP.  With Rs = max |reward| of the limit
+      model (it includes rho = eps * big) every policy value of either model is bounded by Vb = Rs / (1 - gamma), the
+      two Bellman operators differ by at most d = eps * (Rs + 2 * gamma * Vb) at any such value function, hence
+      optimal values and policy returns of the two models differ by at most d / (1 - gamma); a policy optimal for
+      the real MDP is within 2 d / (1 - gamma) of the optimum of the limit model."""
+    fx = rc.get("fx") or {}
+    tol = rounding_window(m)
+    if "lev" in fx:
+        tol += 1e-9 * fx["B"] * max(fx["lev"])
+    ptol = rounding_window(m)
+    if "rare" in fx:
+        g = m["GN"] / m["GD"]
+        rs = max(abs(x) for s in m["R"] for a in s for x in a) + abs(fx["rare"][3])
+        vb = rs / (1 - g)
+        d = (rs + 2 * g * vb) / EPS_DEN / (1 - g)
+        tol += d
+        ptol += 2 * d
+    return tol, ptol
+
+
+def compare_steps(real, rec, follow_log, tol=0.0):
     """('equal' | 'tie' | 'drift', detail).  rec: machine record with inits / hist / nodes (1-based)."""
     if "obs_error" in real:
         return "drift", f"could not observe the run: {real['obs_error']}"
@@ -528,7 +700,7 @@ def compare_steps(real, rec, follow_log):
         if e["expand"] != [h["s"] - 1]:
             if not follow_log and len(e["expand"]) == 1 and prev_vals is not None:
                 a, b_ = e["expand"][0], h["s"] - 1
-                if a in prev_vals and b_ in prev_vals and 0 < prev_vals[a] - prev_vals[b_] <= 1e-9:
+                if a in prev_vals and b_ in prev_vals and 0 < prev_vals[a] - prev_vals[b_] <= 1e-9 + tol:
                     return "tie", f"iteration {i}: tips {a} / {b_} tie in floating point"
             return "drift", f"iteration {i}: expanded {e['expand']} vs machine {h['s'] - 1}"
         if set(e["anc"]) != {z - 1 for z in h["Z"]}:
@@ -537,7 +709,7 @@ def compare_steps(real, rec, follow_log):
         if set(e["vals"]) != held:
             return "drift", f"iteration {i}: visited {sorted(e['vals'])} vs machine {sorted(held)}"
         for s in held:
-            if not near(e["vals"][s], frac(h["val"][s])):
+            if not near(e["vals"][s], frac(h["val"][s]), tol):
                 return "drift", f"iteration {i}: value of {s} is {e['vals'][s]} vs machine {frac(h['val'][s])}"
         for z in h["Z"]:
             if e["opt"].get(z - 1) != h["opt"][z - 1] - 1:
@@ -561,10 +733,26 @@ def compare_steps(real, rec, follow_log):
     return "equal", ""
 
 
+# One signature for one phenomenon of the unchanged tree (found by the large-magnitude family): the value revision
+# ranks actions by Q rounded to 10 *decimals*; at |Q| ~ 1e6..1e7 that is below the float resolution of Q, so exactly
+# tied actions are ranked by cancellation noise, the inner policy iteration alternates between them and
+# `assert converged` fails.  The same instance with rewards of ordinary size converges.
+LARGE_TIE_SIG = "C03:ExplicitStateGraph._policy_iteration[assert converged]:large-magnitude-exact-tie"
+LARGE_TIE_WHAT = ("LAOStar.plan_on raises AssertionError (inner policy iteration alternates between exactly tied actions) when "
+                  "rewards / values are of size ~1e6-1e7: Q is rounded to 10 decimals, which is below float resolution there")
+
+
+def large_magnitude_tie_failure(rc, o):
+    return o.get("etype") == "AssertionError" and "lev" in (rc.get("fx") or {})
+
+
 def shape_of(m, rc):
     und = m["GN"] == m["GD"]
     absinit = any(m["p0"][s] > 0 and m["abs"][s] for s in range(m["N"]))
-    return ("undiscounted" if und else "discounted") + ("/abs-init" if absinit else "") + f"/h={rc['hk']}"
+    fx = rc.get("fx") or {}
+    return (("undiscounted" if und else "discounted-0" if m["GN"] == 0 else "discounted") + ("/abs-init" if absinit else "")
+            + ("/large-magnitude" if "lev" in fx else "") + ("/rare-transition" if "rare" in fx else "")
+            + ("/planner-reused" if rc.get("pair") else "") + f"/h={rc['hk']}")
 
 
 def qstar_differs(m, vstar):
@@ -634,6 +822,10 @@ def judge_one(ctx, i, run, o, rec, mcrec):
         ctx.violation(f"C03:{site}:{shape}", f"{site}: {what}", {"m": m, "rc": rc, "site": site, "extra": extra})
 
     if "error" in o:
+        if large_magnitude_tie_failure(rc, o):
+            ok = False
+            ctx.violation(LARGE_TIE_SIG, LARGE_TIE_WHAT, {"m": m, "rc": rc, "site": "LAOStar.plan_on", "extra": o["error"]})
+            return
         fail(f"LAOStar.plan_on[raised {o['etype']}]", f"raised {o['error']} on a valid instance (no convergence reported)")
         return
     if rec is None:
@@ -653,10 +845,10 @@ def judge_one(ctx, i, run, o, rec, mcrec):
     if o["converged"] is not True:
         fail("PlanningResult.converged", f"converged={o['converged']} after {o['iterations']} iterations")
     # ---- clause: initial value = optimal value of the initial distribution
-    rw = rounding_window(m)
+    rw, ptol = run_tolerance(m, rc)
     if not near(o["initial_value"], vinit, rw):
-        fail("PlanningResult.initial_value", f"initial_value={o['initial_value']} but the optimum is {vinit} = {float(vinit)}",
-             {"vstar": [str(x) for x in vstar]})
+        fail("PlanningResult.initial_value", f"initial_value={o['initial_value']} but the optimum is {vinit} = {float(vinit)}"
+             + (" (model units: B*lev added back)" if o.get("mag") else ""), {"vstar": [str(x) for x in vstar]})
     # ---- clause: every held value is an upper bound on V*
     for s, v in sorted(o.get("svm", {}).items()):
         if not (v >= float(vstar[s]) - rw - 1e-9 * max(1.0, abs(float(vstar[s])))):
@@ -674,8 +866,8 @@ def judge_one(ctx, i, run, o, rec, mcrec):
             ctx.count("policy_not_uniform_over_support_judge_skipped")
         else:
             pinit = frac(rec["pinit"])
-            if rec["polopt"] != 1 and 0 <= float(vinit - pinit) <= rw:
-                ctx.count("policy_return_within_rounding_window")
+            if rec["polopt"] != 1 and 0 <= float(vinit - pinit) <= ptol:
+                ctx.count("policy_return_within_derived_window")
             elif rec["polopt"] != 1:
                 fail("PlanningResult.policy[return]", f"exact return of the returned policy is {pinit} but the optimum is {vinit}",
                      {"pol": {str(k): v for k, v in o["pol"].items()}})
@@ -701,14 +893,14 @@ def judge_one(ctx, i, run, o, rec, mcrec):
         nt = rec["note"][-1]
         ctx.drift("trace-rejected:" + nt["w"], {"run": run_key(run), "iteration": nt["i"], "shape": shape})
     else:
-        st, det = compare_steps(o, rec, follow_log=True)
+        st, det = compare_steps(o, rec, follow_log=True, tol=rw)
         ties = [n for n in rec["note"] if n["w"] == "tip-not-exact-best"]
         bad = [n for n in rec["note"] if n["w"] == "best-action-not-a-maximiser"]
         if st == "drift":
             ctx.drift("machine-vs-run", {"run": run_key(run), "detail": det[:200], "shape": shape})
         elif bad:
             ctx.drift("best-action-not-a-maximiser", {"run": run_key(run), "iteration": bad[0]["i"], "state": bad[0]["x"] - 1})
-        elif ties and not _tips_tie_in_float(o, rc, ties):
+        elif ties and not _tips_tie_in_float(o, rc, ties, rw):
             ctx.drift("tip-not-best", {"run": run_key(run), "iteration": ties[0]["i"]})
         else:
             explained = True
@@ -751,17 +943,20 @@ def judge_light(ctx, run, o, vstar, vinit):
     """Extra executions on the mirror-tie family, judged against the oracle run only (no machine, no exact policy
     judge): plan_on returns, reports convergence, optimal initial value, upper bounds, policy domain / availability."""
     m, rc = run["m"], run["rc"]
-    shape = shape_of(m, rc) + "/mirror-tie"
+    shape = shape_of(m, rc) + ("" if rc.get("fx") else "/mirror-tie")
     ctx.evaluations += 1
-    ctx.count("light_runs_on_mirror_tie_family")
+    ctx.count("light_runs")
 
     def fail(site, what):
         ctx.violation(f"C03:{site}:{shape}", f"{site}: {what}", {"m": m, "rc": rc, "site": site, "extra": "light"})
 
     if "error" in o:
+        if large_magnitude_tie_failure(rc, o):
+            ctx.violation(LARGE_TIE_SIG, LARGE_TIE_WHAT, {"m": m, "rc": rc, "site": "LAOStar.plan_on", "extra": o["error"]})
+            return
         fail(f"LAOStar.plan_on[raised {o['etype']}]", f"raised {o['error']} on a valid instance (no convergence reported)")
         return
-    rw = rounding_window(m)
+    rw, _ = run_tolerance(m, rc)
     if o["converged"] is not True:
         fail("PlanningResult.converged", f"converged={o['converged']} after {o['iterations']} iterations")
     if not near(o["initial_value"], vinit, rw):
@@ -780,7 +975,7 @@ def _pol_row(m, o, s):
     return [1 if a in sup else 0 for a in range(m["K"])] if sup else list(m["avail"][s])
 
 
-def _tips_tie_in_float(o, rc, ties):
+def _tips_tie_in_float(o, rc, ties, tol=0.0):
     """Every flagged tip choice is explained by rounding noise in the values the real code held at that time."""
     ev = o.get("events", [])
     for n in ties:
@@ -790,7 +985,7 @@ def _tips_tie_in_float(o, rc, ties):
         before = ev[i - 1]["vals"] if i > 0 else {s: float(frac(rc["H"][s])) for s in o["init"]}
         chosen, best = ev[i]["expand"][0], n["x"] - 1
         # the code takes the largest float: only a float that is larger by rounding noise excuses the choice
-        if chosen not in before or best not in before or not (0 < before[chosen] - before[best] <= 1e-9):
+        if chosen not in before or best not in before or not (0 < before[chosen] - before[best] <= 1e-9 + tol):
             return False
     return True
 
@@ -803,8 +998,11 @@ def run(ctx):
     t = TIERS[ctx.tier]
     n_inst, per_inst, n_mc, mc_cap = t["n_inst"], t["per_inst"], t["n_mc"], t["mc_cap"]
     ctx.rule = ("random members of MDPFam (1-3 non-absorbing + 0-2 explicitly absorbing states with ghost dynamics, 1-3 "
-                "state-dependent actions, PD in {2,4}, gamma in {1/2,3/4,9/10} or gamma=1 with every policy proper, several / "
-                "absorbing initial states) x heuristic kind (constant bound, exact V*, V*+1, V*+per-state slack) x "
+                "state-dependent actions, PD in {2,4}, gamma in {0,1/2,3/4,9/10} or gamma=1 with every policy proper, several / "
+                "absorbing initial states; forward-only DAGs; mirror-tie instances with thirds..tenths; large-magnitude instances "
+                "= potential-shaped rewards of size 4e6..1.2e7 (three of four needing two policy-improvement steps); rare-transition "
+                "instances = one 1e-9 transition worth +-6..20 in expectation; planner reuse = the same LAOStar object plans a "
+                "second MDP with the same labels before the first result's policy is read, or before this run) x heuristic kind (constant bound, exact V*, V*+1, V*+per-state slack) x "
                 "randomize_action_order x randomize_nextstate_order x seed x representation (functional / subclass / "
                 "from_matrices; label kinds; Dict incl. zero entries / Deterministic / Uniform distributions); non-trivial = "
                 ">=2 non-absorbing states, two actions of different exact Q* somewhere, >=2 iterations of the real run "
@@ -815,13 +1013,49 @@ def run(ctx):
         "floats are compared with exact rationals at 1e-9 relative (direct linear-algebra outputs, DESIGN 5.1)",
         "the exact machine runs where PD*GD <= 8 and its integers stay below 2^30 (guard Fits); other runs are judged on the "
         "clauses only and counted under skipped",
+        "large-magnitude family: the spec works in model units (shaping by B*lev is value-preserving, tips ranked by lev first); "
+        "real numbers are compared at 1e-9 relative to their own size",
+        "rare-transition family: the record is the eps -> 0 limit of the real MDP; slack = derived perturbation bound "
+        "eps*(Rs + 2*gamma*Rs/(1-gamma))/(1-gamma) (run_tolerance), discounted instances only, step-by-step machine not compared",
         "TLC -coverage cannot be used (its cost model runs out of memory on the shared oracle operators): per-action counts "
         "are computed from the emitted behaviours instead",
     ]
     instances = make_instances(rng, n_inst)
-    orc = []
-    for k in range(0, len(instances), 1200):
-        orc += tlc_oracle(ctx, instances[k:k + 1200], name=f"oracle{k}")
+    # special families (own rng: the base families do not depend on them)
+    srng = random.Random(ctx.seed * 31 + 5)
+    pool = make_instances(srng, 40 * t["n_special"])
+    special = []                                   # (instance, fx)
+    hard = 0
+    for k, m in enumerate(pool):
+        if len(special) >= 2 * t["n_special"]:
+            break
+        if len(special) % 2 == 0:
+            # large magnitudes; three of four such instances are ones on which policy iteration from the uniform
+            # policy needs more than one improvement step (searched for in the pool while it lasts)
+            if sum(1 for x in m["abs"] if not x) >= 2 and m["PD"] * m["GD"] <= 8:
+                want_hard = (len(special) // 2) % 4 != 3 and k < len(pool) - 4 * t["n_special"]
+                if want_hard and not first_improvement_not_optimal(m):
+                    continue
+                hard += want_hard
+                special.append((m, shaped_fx(srng, m)))
+        else:
+            rr = rare_instance(srng, m)
+            if rr is not None:
+                special.append(rr)
+    ctx.count("large_magnitude_instances_needing_two_improvement_steps", hard)
+    partners = {j: partner_instance(srng, instances[j]) for j in range(len(instances)) if j % 4 == 1}
+    pj = sorted(partners)
+    everything = instances + [m for m, _ in special] + [partners[j] for j in pj]
+    orc_all = []
+    for k in range(0, len(everything), 1200):
+        orc_all += tlc_oracle(ctx, everything[k:k + 1200], name=f"oracle{k}")
+    orc = orc_all[:len(instances)]
+    orc_special = orc_all[len(instances):len(instances) + len(special)]
+    orc_partner = dict(zip(pj, orc_all[len(instances) + len(special):]))
+
+    def passes(o):
+        f = o["filter"]
+        return f["wf"] and f["few"] and f["acts"] and f["proper"]
     keep = []
     for j, (m, o) in enumerate(zip(instances, orc)):
         f = o["filter"]
@@ -834,7 +1068,10 @@ def run(ctx):
             if any(pv[s] != vs[s] for s in range(m["N"])):
                 raise TLCFailure(f"TLA+ V* and Python V* disagree on instance {j}: {vs} vs {pv}")
             ctx.count("oracle_crosschecks")
-        keep.append((m, vs, o["v"]))
+        pr = None
+        if j in partners and passes(orc_partner[j]):
+            pr = (partners[j], [frac(x) for x in orc_partner[j]["v"]])
+        keep.append((m, vs, o["v"], pr))
         # mirror-tie family (every 5th instance): many more seeds / configurations, judged against the oracle run
         if j % 5 == 4:
             lr = random.Random(ctx.seed * 7 + j)
@@ -843,7 +1080,7 @@ def run(ctx):
                 judge_light(ctx, r, run_real(m, r["rc"]), vs, vi)
     # ---- MC: all behaviours on a sub-family
     mc_batch, mc_src = [], []
-    for m, vs, raw in keep:
+    for m, vs, raw, _pr in keep:
         if len(mc_batch) >= n_mc:
             break
         if m["PD"] * m["GD"] > 4:
@@ -871,10 +1108,24 @@ def run(ctx):
     ctx.extra["mc_flag_free_behaviours_emitted"] = len(mcrecs)
     # ---- runs of the real code
     runs, mcref = [], {}
-    for m, vs, raw in keep:
-        for r in make_runs(rng, m, vs, per_inst):
+    for m, vs, raw, pr in keep:
+        for r in make_runs(rng, m, vs, per_inst, pair=pr):
             r["vs"] = raw
             runs.append(r)
+        if pr:
+            ctx.count("instances_with_planner_reuse")
+    for (m, fx), o in zip(special, orc_special):
+        if not passes(o):
+            ctx.skip("precondition filter (not proper / malformed)")
+            continue
+        vs = [frac(x) for x in o["v"]]
+        for r in make_runs(srng, m, vs, per_inst, fx=fx):
+            r["vs"] = o["v"]
+            runs.append(r)
+        vi = frac(o["vinit"])
+        for r in make_runs(srng, m, vs, t["n_light_special"], fx=fx):
+            judge_light(ctx, r, run_real(m, r["rc"]), vs, vi)
+        ctx.count("instances_large_magnitude" if "lev" in fx else "instances_rare_transition")
     # pipeline A: the flag-free behaviours TLC emitted, replayed (the seed only decides the initial order)
     plain = [r for r in REPS if r["dist"] not in ("dict_zeros", "sparse")]
     for j, (m, vs, raw) in enumerate(mc_src, start=1):
